@@ -74,7 +74,8 @@ def execute(
     Raises:
         RuntimeError: on invalid operation.
     """
-    instrumentation = instrumentation or Instrumentation()
+    if instrumentation is None:
+        instrumentation = Instrumentation()
     runtime = runtime or BlockingRuntime()
 
     operation, root_type = get_operation_with_type(
